@@ -77,114 +77,181 @@ def condOk (s : St) (bo : BitVec 5) (bi : Nat) : Word × Bool :=
   let condOk := bo.getLsbD 4 || (s.cr bi == bo.getLsbD 3)
   (ctr', ctrOk && condOk)
 
-def field (w : Word) (lo n : Nat) : Nat := (w.toNat >>> lo) % 2 ^ n
-def rfield (w : Word) (lo : Nat) : Reg := BitVec.ofNat 5 (field w lo 5)
+/-! ### instructions, decoded from the raw word -/
+
+inductive Instr where
+  | addi (rt ra : Reg) (si : BitVec 16)
+  | addis (rt ra : Reg) (si : BitVec 16)
+  | add (rt ra rb : Reg) (rc : Bool)
+  | subf (rt ra rb : Reg) (rc : Bool)
+  | addze (rt ra : Reg) (rc : Bool)
+  | or_ (ra rs rb : Reg) (rc : Bool)
+  | ori (ra rs : Reg) (ui : BitVec 16)
+  | rlwinm (ra rs : Reg) (sh mb me : BitVec 5) (rc : Bool)
+  | srawi (ra rs : Reg) (sh : BitVec 5) (rc : Bool)
+  | cmpi (bf : BitVec 3) (ra : Reg) (si : BitVec 16)
+  | cmpli (bf : BitVec 3) (ra : Reg) (ui : BitVec 16)
+  | lbz (rt ra : Reg) (d : BitVec 16)
+  | lwz (rt ra : Reg) (d : BitVec 16)
+  | lwzu (rt ra : Reg) (d : BitVec 16)
+  | stw (rs ra : Reg) (d : BitVec 16)
+  | stwu (rs ra : Reg) (d : BitVec 16)
+  | stmw (rs ra : Reg) (d : BitVec 16)
+  | mflr (rt : Reg) | mfctr (rt : Reg) | mtlr (rs : Reg) | mtctr (rs : Reg)
+  | b (li : BitVec 24) (lk : Bool)
+  | bc (bo bi : BitVec 5) (bd : BitVec 14) (lk : Bool)
+  | bclr (bo bi : BitVec 5) (lk : Bool)
+  | bcctr (bo bi : BitVec 5) (lk : Bool)
+  deriving DecidableEq, Repr
+
+def fOp (w : Word) : BitVec 6 := w.extractLsb' 26 6
+def fRt (w : Word) : Reg := w.extractLsb' 21 5
+def fRa (w : Word) : Reg := w.extractLsb' 16 5
+def fRb (w : Word) : Reg := w.extractLsb' 11 5
+def fMb (w : Word) : BitVec 5 := w.extractLsb' 6 5
+def fMe (w : Word) : BitVec 5 := w.extractLsb' 1 5
+def fXo (w : Word) : BitVec 10 := w.extractLsb' 1 10
+def fImm (w : Word) : BitVec 16 := w.extractLsb' 0 16
+def fRc (w : Word) : Bool := w.getLsbD 0
+def fAa (w : Word) : Bool := w.getLsbD 1
+
+/-- opcode 31: the X/XO forms (for the XO forms bit 10 is OE, which must be 0 here) -/
+def decode31 (w : Word) : Option Instr :=
+  let rt := fRt w; let ra := fRa w; let rb := fRb w; let rc := fRc w
+  match (fXo w).toNat with
+  | 266 => some (.add rt ra rb rc)
+  | 40 => some (.subf rt ra rb rc)
+  | 202 => if rb = 0 then some (.addze rt ra rc) else none
+  | 444 => some (.or_ ra rt rb rc)
+  | 824 => some (.srawi ra rt rb rc)
+  | 339 => if rc then none
+           else if ra = 8 ∧ rb = 0 then some (.mflr rt) else if ra = 9 ∧ rb = 0 then some (.mfctr rt) else none
+  | 467 => if rc then none
+           else if ra = 8 ∧ rb = 0 then some (.mtlr rt) else if ra = 9 ∧ rb = 0 then some (.mtctr rt) else none
+  | _ => none
+
+def decode (w : Word) : Option Instr :=
+  let rt := fRt w; let ra := fRa w; let i := fImm w
+  match (fOp w).toNat with
+  | 14 => some (.addi rt ra i)
+  | 15 => some (.addis rt ra i)
+  | 10 => if w.getLsbD 21 ∨ w.getLsbD 22 then none else some (.cmpli (w.extractLsb' 23 3) ra i)     -- cmplwi: L = 0
+  | 11 => if w.getLsbD 21 ∨ w.getLsbD 22 then none else some (.cmpi (w.extractLsb' 23 3) ra i)      -- cmpwi: L = 0
+  | 24 => some (.ori ra rt i)
+  | 18 => if fAa w then none else some (.b (w.extractLsb' 2 24) (fRc w))
+  | 16 => if fAa w then none else some (.bc rt ra (w.extractLsb' 2 14) (fRc w))
+  | 19 =>
+    match (fXo w).toNat with
+    | 16 => some (.bclr rt ra (fRc w))
+    | 528 => some (.bcctr rt ra (fRc w))
+    | _ => none
+  | 21 => some (.rlwinm ra rt (fRb w) (fMb w) (fMe w) (fRc w))
+  | 31 => decode31 w
+  | 32 => some (.lwz rt ra i)
+  | 33 => some (.lwzu rt ra i)
+  | 34 => some (.lbz rt ra i)
+  | 36 => some (.stw rt ra i)
+  | 37 => some (.stwu rt ra i)
+  | 47 => some (.stmw rt ra i)
+  | _ => none
+
+def sext16 (i : BitVec 16) : Word := i.signExtend 32
+def zext16 (i : BitVec 16) : Word := i.zeroExtend 32
+
+/-- the words `rs, rs+1, …, r31` stored by `stmw` at `ea, ea+4, …` -/
+def stmwMem (s : St) (rs : Reg) (ea : Word) : ByteMem :=
+  (List.range (32 - rs.toNat)).foldl (fun m k =>
+    wrWord m (ea + BitVec.ofNat 32 (4 * k)) (s.gpr (rs + BitVec.ofNat 5 k))) s.mem
+
+def exec (i : Instr) (pc : Word) (s : St) : Outcome :=
+  let nxt (s' : St) : Outcome := .next s' (pc + 4)
+  let fin (rc : Bool) (s' : St) (v : Word) : Outcome := nxt (if rc then s'.record v else s')
+  match i with
+  | .addi rt ra si => nxt (s.w rt (s.r0 ra + sext16 si))
+  | .addis rt ra si => nxt (s.w rt (s.r0 ra + (si ++ (0 : BitVec 16))))
+  | .add rt ra rb rc => let v := s.gpr ra + s.gpr rb; fin rc (s.w rt v) v
+  | .subf rt ra rb rc => let v := ~~~(s.gpr ra) + s.gpr rb + 1; fin rc (s.w rt v) v
+  | .addze rt ra rc =>
+    let (v, c) := addc (s.gpr ra) 0 s.ca
+    fin rc ({ s with ca := c }.w rt v) v
+  | .or_ ra rs rb rc => let v := s.gpr rs ||| s.gpr rb; fin rc (s.w ra v) v
+  | .ori ra rs ui => nxt (s.w ra (s.gpr rs ||| zext16 ui))
+  | .rlwinm ra rs sh mb me rc =>
+    let v := (s.gpr rs).rotateLeft sh.toNat &&& mask mb.toNat me.toNat
+    fin rc (s.w ra v) v
+  | .srawi ra rs sh rc =>
+    let x := s.gpr rs
+    let v := x.sshiftRight sh.toNat
+    let lost := x &&& (BitVec.ofNat 32 (2 ^ sh.toNat - 1))
+    fin rc ({ s with ca := x.msb && lost != 0 }.w ra v) v
+  | .cmpi bf ra si =>
+    let a := s.gpr ra; let b := sext16 si
+    nxt (s.setCr bf.toNat (a.slt b) (b.slt a) (a == b) s.so)
+  | .cmpli bf ra ui =>
+    let a := s.gpr ra; let b := zext16 ui
+    nxt (s.setCr bf.toNat (a.ult b) (b.ult a) (a == b) s.so)
+  | .lbz rt ra d =>
+    match rdByte s.mem (s.r0 ra + sext16 d) with
+    | none => .fault
+    | some b => nxt (s.w rt (b.zeroExtend 32))
+  | .lwz rt ra d =>
+    match rdWord s.mem (s.r0 ra + sext16 d) with
+    | none => .fault
+    | some v => nxt (s.w rt v)
+  | .lwzu rt ra d =>
+    if ra = 0 ∨ ra = rt then .invalid
+    else
+      let ea := s.gpr ra + sext16 d
+      match rdWord s.mem ea with
+      | none => .fault
+      | some v => nxt ((s.w rt v).w ra ea)
+  | .stw rs ra d => nxt { s with mem := wrWord s.mem (s.r0 ra + sext16 d) (s.gpr rs) }
+  | .stwu rs ra d =>
+    if ra = 0 then .invalid
+    else
+      let ea := s.gpr ra + sext16 d
+      nxt ({ s with mem := wrWord s.mem ea (s.gpr rs) }.w ra ea)
+  | .stmw rs ra d => nxt { s with mem := stmwMem s rs (s.r0 ra + sext16 d) }
+  | .mflr rt => nxt (s.w rt s.lr)
+  | .mfctr rt => nxt (s.w rt s.ctr)
+  | .mtlr rs => nxt { s with lr := s.gpr rs }
+  | .mtctr rs => nxt { s with ctr := s.gpr rs }
+  | .b li lk =>
+    .next (if lk then { s with lr := pc + 4 } else s) (pc + ((li ++ (0 : BitVec 2)).signExtend 32))
+  | .bc bo bi bd lk =>
+    let (ctr', ok) := condOk s bo bi.toNat
+    let s1 := { s with ctr := ctr' }
+    let s2 := if lk then { s1 with lr := pc + 4 } else s1
+    .next s2 (if ok then pc + ((bd ++ (0 : BitVec 2)).signExtend 32) else pc + 4)
+  | .bclr bo bi lk =>
+    let (ctr', ok) := condOk s bo bi.toNat
+    let target := s.lr &&& 0xfffffffc
+    let s1 := { s with ctr := ctr' }
+    let s2 := if lk then { s1 with lr := pc + 4 } else s1
+    .next s2 (if ok then target else pc + 4)
+  | .bcctr bo bi lk =>
+    if !bo.getLsbD 2 then .invalid
+    else
+      let ok := bo.getLsbD 4 || (s.cr bi.toNat == bo.getLsbD 3)
+      let s2 := if lk then { s with lr := pc + 4 } else s
+      .next s2 (if ok then s.ctr &&& 0xfffffffc else pc + 4)
 
 def step (w : Word) (pc : Word) (s : St) : Outcome :=
-  let op := field w 26 6
-  let rt := rfield w 21; let ra := rfield w 16; let rb := rfield w 11
-  let si : BitVec 16 := BitVec.ofNat 16 (field w 0 16)
-  let xo := field w 1 10
-  let rc : Bool := field w 0 1 == 1
-  let nxt (s' : St) : Outcome := .next s' (pc + 4)
-  let fin (s' : St) (v : Word) : Outcome := nxt (if rc then s'.record v else s')
-  match op with
-  | 14 => nxt (s.w rt (s.r0 ra + si.signExtend 32))                                 -- addi / li
-  | 15 => nxt (s.w rt (s.r0 ra + (si ++ (0 : BitVec 16))))                           -- addis / lis
-  | 10 =>                                                                            -- cmpli (cmplwi: L = 0)
-    if field w 21 1 = 1 ∨ field w 22 1 = 1 then .reserved
-    else
-      let a := s.gpr ra; let b : Word := si.zeroExtend 32
-      nxt (s.setCr (field w 23 3) (a.ult b) (b.ult a) (a == b) s.so)
-  | 11 =>                                                                            -- cmpi (cmpwi: L = 0)
-    if field w 21 1 = 1 ∨ field w 22 1 = 1 then .reserved
-    else
-      let a := s.gpr ra; let b : Word := si.signExtend 32
-      nxt (s.setCr (field w 23 3) (a.slt b) (b.slt a) (a == b) s.so)
-  | 24 => nxt (s.w ra (s.gpr rt ||| si.zeroExtend 32))                               -- ori (nop)
-  | 18 =>                                                                            -- b / bl (AA = 0)
-    if field w 1 1 = 1 then .reserved
-    else
-      let li : BitVec 24 := BitVec.ofNat 24 (field w 2 24)
-      let target := pc + ((li ++ (0 : BitVec 2)).signExtend 32)
-      .next (if field w 0 1 = 1 then { s with lr := pc + 4 } else s) target
-  | 16 =>                                                                            -- bc (AA = 0)
-    if field w 1 1 = 1 then .reserved
-    else
-      let bd : BitVec 14 := BitVec.ofNat 14 (field w 2 14)
-      let (ctr', ok) := condOk s rt (field w 16 5)
-      let s1 := { s with ctr := ctr' }
-      let s2 := if field w 0 1 = 1 then { s1 with lr := pc + 4 } else s1
-      .next s2 (if ok then pc + ((bd ++ (0 : BitVec 2)).signExtend 32) else pc + 4)
-  | 19 =>
-    if xo = 16 then                                                                  -- bclr
-      let (ctr', ok) := condOk s rt (field w 16 5)
-      let target := s.lr &&& 0xfffffffc
-      let s1 := { s with ctr := ctr' }
-      let s2 := if field w 0 1 = 1 then { s1 with lr := pc + 4 } else s1
-      .next s2 (if ok then target else pc + 4)
-    else if xo = 528 then                                                            -- bcctr
-      if !rt.getLsbD 2 then .invalid
-      else
-        let ok := rt.getLsbD 4 || (s.cr (field w 16 5) == rt.getLsbD 3)
-        let s2 := if field w 0 1 = 1 then { s with lr := pc + 4 } else s
-        .next s2 (if ok then s.ctr &&& 0xfffffffc else pc + 4)
-    else .reserved
-  | 21 =>                                                                            -- rlwinm
-    let sh := field w 11 5; let mb := field w 6 5; let me := field w 1 5
-    let v := (s.gpr rt).rotateLeft sh &&& mask mb me
-    fin (s.w ra v) v
-  | 31 =>
-    let oe : Bool := field w 10 1 == 1
-    match field w 1 9, oe with
-    | 266, false => let v := s.gpr ra + s.gpr rb; fin (s.w rt v) v                    -- add
-    | 40, false => let v := ~~~(s.gpr ra) + s.gpr rb + 1; fin (s.w rt v) v            -- subf
-    | 202, false =>                                                                   -- addze
-      let (v, c) := addc (s.gpr ra) 0 s.ca
-      fin ({ s with ca := c }.w rt v) v
-    | _, _ =>
-      match xo with
-      | 444 => let v := s.gpr rt ||| s.gpr rb; fin (s.w ra v) v                        -- or (mr)
-      | 824 =>                                                                        -- srawi
-        let sh := field w 11 5
-        let x := s.gpr rt
-        let v := x.sshiftRight sh
-        let lost := x &&& (BitVec.ofNat 32 (2 ^ sh - 1))
-        fin ({ s with ca := x.msb && lost != 0 }.w ra v) v
-      | 339 =>                                                                        -- mfspr
-        let spr := field w 16 5 + 32 * field w 11 5
-        if spr = 8 then nxt (s.w rt s.lr) else if spr = 9 then nxt (s.w rt s.ctr) else .reserved
-      | 467 =>                                                                        -- mtspr
-        let spr := field w 16 5 + 32 * field w 11 5
-        if spr = 8 then nxt { s with lr := s.gpr rt } else if spr = 9 then nxt { s with ctr := s.gpr rt } else .reserved
-      | _ => .reserved
-  | 32 | 33 | 34 =>                                                                   -- lwz lwzu lbz
-    let upd := op = 33
-    if upd ∧ (ra = 0 ∨ ra = rt) then .invalid
-    else
-      let ea := (if upd then s.gpr ra else s.r0 ra) + si.signExtend 32
-      let v : Option Word := if op = 34 then (rdByte s.mem ea).map (·.zeroExtend 32) else rdWord s.mem ea
-      match v with
-      | none => .fault
-      | some v => nxt (if upd then (s.w rt v).w ra ea else s.w rt v)
-  | 36 | 37 =>                                                                        -- stw stwu
-    let upd := op = 37
-    if upd ∧ ra = 0 then .invalid
-    else
-      let ea := (if upd then s.gpr ra else s.r0 ra) + si.signExtend 32
-      let s1 := { s with mem := wrWord s.mem ea (s.gpr rt) }
-      nxt (if upd then s1.w ra ea else s1)
-  | 47 =>                                                                             -- stmw
-    let ea := s.r0 ra + si.signExtend 32
-    let n := 32 - rt.toNat
-    nxt { s with mem := (List.range n).foldl (fun m k =>
-      wrWord m (ea + BitVec.ofNat 32 (4 * k)) (s.gpr (rt + BitVec.ofNat 5 k))) s.mem }
-  | _ => .reserved
+  match decode w with
+  | none => .reserved
+  | some i => exec i pc s
 
 /-! ### the tie to falcon's scalars, and the specification's post line for the driver -/
 
-def crNames : List String :=
-  (List.range 8).flatMap (fun i => ["lt", "gt", "eq", "so"].map (fun f => s!"cr{i}-{f}"))
+/-- the scalars of falcon's PPC lifter that make up the machine state, in one table:
+    0–31 `r0…r31`, 32 `lr`, 33 `ctr`, 34 `carry` (XER[CA]), 35+i the CR bit `i` (`crN-lt/gt/eq/so`) -/
+def allNames : List String :=
+  ["r0", "r1", "r2", "r3", "r4", "r5", "r6", "r7", "r8", "r9", "r10", "r11", "r12", "r13", "r14", "r15", "r16", "r17", "r18", "r19", "r20", "r21", "r22", "r23", "r24", "r25", "r26", "r27", "r28", "r29", "r30", "r31", "lr", "ctr", "carry", "cr0-lt", "cr0-gt", "cr0-eq", "cr0-so", "cr1-lt", "cr1-gt", "cr1-eq", "cr1-so", "cr2-lt", "cr2-gt", "cr2-eq", "cr2-so", "cr3-lt", "cr3-gt", "cr3-eq", "cr3-so", "cr4-lt", "cr4-gt", "cr4-eq", "cr4-so", "cr5-lt", "cr5-gt", "cr5-eq", "cr5-so", "cr6-lt", "cr6-gt", "cr6-eq", "cr6-so", "cr7-lt", "cr7-gt", "cr7-eq", "cr7-so"]
+
+def nm (k : Nat) : String := allNames.getD k ""
+def gprName (i : Reg) : String := nm i.toNat
+def crName (i : Nat) : String := nm (35 + i)
+def crNames : List String := allNames.drop 35
 
 def v32 (σ : State) (n : String) : Word :=
   match σ.get n with
@@ -197,9 +264,9 @@ def vb (σ : State) (n : String) : Bool :=
   | none => false
 
 def absState (σ : State) : St :=
-  { gpr := fun i => v32 σ s!"r{i.toNat}"
-    lr := v32 σ "lr", ctr := v32 σ "ctr", ca := vb σ "carry", so := vb σ "so"
-    cr := fun i => vb σ (crNames.getD i "")
+  { gpr := fun i => v32 σ (gprName i)
+    lr := v32 σ (nm 32), ctr := v32 σ (nm 33), ca := vb σ (nm 34), so := vb σ "so"
+    cr := fun i => decide (i < 32) && vb σ (crName i)
     mem := σ.mem }
 
 def w32Str (v : Word) : String := "0x" ++ Const.hexDigits v.toNat ++ ":32"
